@@ -32,6 +32,8 @@ pub fn compress_block<M: Matcher>(state: &mut CompressState<M>, output: &mut Vec
 
     // literals section
 
+    #[cfg(killingspark_zstd_rs_verif)]
+    let verif_had_table = state.last_huff_table.is_some();
     let mut writer = BitWriter::from(output);
     // A huffman table needs at least two distinct symbols
     if literals_vec.len() > 1024 && literals_vec.iter().any(|x| *x != literals_vec[0]) {
@@ -46,6 +48,17 @@ pub fn compress_block<M: Matcher>(state: &mut CompressState<M>, output: &mut Vec
 
     // sequences section
 
+    #[cfg(killingspark_zstd_rs_verif)]
+    crate::verif::emit(
+        crate::verif::ENC,
+        "enc_block",
+        &[
+            literals_vec.len() as u64,
+            sequences.len() as u64,
+            verif_had_table as u64,
+            state.last_huff_table.is_some() as u64,
+        ],
+    );
     if sequences.is_empty() {
         writer.write_bits(0u8, 8);
     } else {
@@ -374,5 +387,45 @@ fn compress_literals(
         Some(new_encoder_table)
     } else {
         None
+    }
+}
+
+/// Verification hooks: pass-through to the private serialisation helpers of this module.
+#[cfg(killingspark_zstd_rs_verif)]
+pub(crate) mod verif_exports {
+    use crate::bit_io::BitWriter;
+    use alloc::vec::Vec;
+
+    pub fn literal_length(len: u32) -> (u8, u32, usize) {
+        super::encode_literal_length(len)
+    }
+    pub fn match_len(len: u32) -> (u8, u32, usize) {
+        super::encode_match_len(len)
+    }
+    pub fn offset(len: u32) -> (u8, u32, usize) {
+        super::encode_offset(len)
+    }
+    pub fn seqnum(seqnum: usize) -> Vec<u8> {
+        let mut writer = BitWriter::new();
+        super::encode_seqnum(seqnum, &mut writer);
+        writer.dump()
+    }
+    pub fn raw_literals(literals: &[u8]) -> Vec<u8> {
+        let mut out = Vec::new();
+        let mut writer = BitWriter::from(&mut out);
+        super::raw_literals(literals, &mut writer);
+        writer.flush();
+        out
+    }
+    /// Returns the literals section and whether a new table was returned.
+    pub fn compress_literals(
+        literals: &[u8],
+        last_table: Option<&crate::huff0::huff0_encoder::HuffmanTable>,
+    ) -> (Vec<u8>, Option<crate::huff0::huff0_encoder::HuffmanTable>) {
+        let mut out = Vec::new();
+        let mut writer = BitWriter::from(&mut out);
+        let table = super::compress_literals(literals, last_table, &mut writer);
+        writer.flush();
+        (out, table)
     }
 }
